@@ -29,6 +29,8 @@ fn spaces(tier: Tier) -> Vec<Space> {
             Space { alpha: "SELFX", depth: 3 },
             Space { alpha: "CASC", depth: 2 },
             Space { alpha: "CASC", depth: 3 },
+            Space { alpha: "TERN", depth: 2 },
+            Space { alpha: "TERN", depth: 3 },
             Space { alpha: "MICRO", depth: 3 },
             Space { alpha: "BIND", depth: 2 },
             Space { alpha: "CORE", depth: 3 },
@@ -51,6 +53,8 @@ fn spaces(tier: Tier) -> Vec<Space> {
             Space { alpha: "SELFX", depth: 3 },
             Space { alpha: "CASC", depth: 2 },
             Space { alpha: "CASC", depth: 3 },
+            Space { alpha: "TERN", depth: 2 },
+            Space { alpha: "TERN", depth: 3 },
             Space { alpha: "CORE", depth: 3 },
             Space { alpha: "A0", depth: 3 },
             Space { alpha: "MICRO", depth: 4 },
@@ -151,12 +155,109 @@ impl CanonProp {
     }
 }
 
+/// shadowing inside one e-node (see cong.rs): known = an alpha-equivalent term was inserted by the history
+fn shadow_probe_exec(ops: &[Op]) -> Exec {
+    use crate::props::cong::de_bruijn;
+    let mut out = Exec::default();
+    let mut terms: Vec<T> = Vec::new();
+    for o in alphabet("SHADOW") {
+        match o {
+            Op::Add(t) => terms.push(t),
+            Op::Union(l, r) => {
+                terms.push(l);
+                terms.push(r);
+            }
+        }
+    }
+    let mut inserted: BTreeSet<String> = BTreeSet::new();
+    fn subterms(t: &T, out: &mut Vec<T>) {
+        out.push(t.clone());
+        for a in &t.args {
+            if let Arg::Child(c) = a {
+                subterms(c, out);
+            }
+        }
+    }
+    for o in ops {
+        let sides: Vec<&T> = match o {
+            Op::Add(t) => vec![t],
+            Op::Union(l, r) => vec![l, r],
+        };
+        for s in sides {
+            // closed-under-binder sub-terms are not probed: only the roots and their binder-free children are "inserted"
+            let mut st = Vec::new();
+            subterms(s, &mut st);
+            for x in st {
+                inserted.insert(de_bruijn(&x, &mut Vec::new()));
+            }
+        }
+    }
+    let ops2 = ops.to_vec();
+    let terms2 = terms.clone();
+    let r = fresh_thread(move || {
+        let nm = Naming::Numeric;
+        let mut eg = EGraph::<Sym>::default();
+        let mut rec = Vec::new();
+        catch(|| {
+            for o in &ops2 {
+                apply_op(&mut eg, o, nm, &mut rec);
+            }
+            let mut rows = Vec::new();
+            for t in &terms2 {
+                let re = to_recexpr(t, nm);
+                let before = (eg.progress().number_of_classes, eg.total_number_of_nodes());
+                let l = lookup_rec_expr(&re, &eg);
+                let a = if l.is_some() { Some(eg.add_expr(re.clone())) } else { None };
+                let after = (eg.progress().number_of_classes, eg.total_number_of_nodes());
+                let agree = match (&l, &a) {
+                    (Some(l), Some(a)) => eg.eq(l, a),
+                    _ => true,
+                };
+                rows.push((l.is_some(), before == after, agree));
+            }
+            rows
+        })
+    });
+    out.traces = 1;
+    out.transitions = ops.len() as u64;
+    let hs = ops.iter().map(|o| o.show()).collect::<Vec<_>>().join(" ; ");
+    match r {
+        Err(site) | Ok(Err(site)) => {
+            out.aborted.push(site);
+            out.outcomes.push("aborted".into());
+        }
+        Ok(Ok(rows)) => {
+            out.nontrivial = 1;
+            out.goals |= 16;
+            out.fps.push(fnv_str(&format!("{hs}|{rows:?}")));
+            for (t, (found, unchanged, agree)) in terms.iter().zip(rows) {
+                out.evaluations += 1;
+                let known = inserted.contains(&de_bruijn(t, &mut Vec::new()));
+                if known && !found {
+                    out.fail("lookup-iff-represented", format!("shadowing {}", t.to_sexp()), format!("lookup_rec_expr is None but an alpha-equivalent term was inserted; history: {hs}"), &ops_strings(ops));
+                }
+                if !known && found {
+                    out.fail("lookup-iff-represented", format!("shadowing {}", t.to_sexp()), format!("lookup_rec_expr succeeds but no alpha-equivalent term was inserted; history: {hs}"), &ops_strings(ops));
+                }
+                if found && (!unchanged || !agree) {
+                    out.fail("add-creates", format!("shadowing {}", t.to_sexp()), format!("inserting a known term changed the e-graph or disagrees with lookup; history: {hs}"), &ops_strings(ops));
+                }
+            }
+            out.outcomes.push("agree(shadow)".into());
+        }
+    }
+    out
+}
+
 impl Prop for CanonProp {
     fn id(&self) -> &'static str {
         "C09"
     }
     fn segments(&self, tier: Tier, _cfg: &str) -> Vec<Seg> {
-        self.segs(tier).iter().map(|s| s.seg.clone()).collect()
+        let mut v: Vec<Seg> = self.segs(tier).iter().map(|s| s.seg.clone()).collect();
+        let n = alphabet("SHADOW").len() as u64;
+        v.push(Seg { name: "SHADOW-sequences<=2".into(), count: n + n * n, what: "one index = one ordered sequence of 1-2 operations over the alphabet SHADOW (a binder reuses the name of a slot that is free elsewhere in the same e-node); every SHADOW term is then probed: lookup succeeds iff an alpha-equivalent term (de-Bruijn canonical form) was inserted, and inserting a known one creates nothing".into() });
+        v
     }
     fn goals(&self) -> Vec<&'static str> {
         vec!["absent_probe", "present_only_through_unions", "probe_with_redundant_slot", "probe_of_symmetric_class", "shadowing_probe", "probe_under_binder_present"]
@@ -169,11 +270,17 @@ impl Prop for CanonProp {
     }
     fn describe(&self, tier: Tier, _cfg: &str, seg: usize, idx: u64) -> Value {
         let segs = self.segs(tier);
+        if seg == segs.len() {
+            return json!({"sequence": crate::props::cong::shadow_decode(idx).iter().map(|o| o.show()).collect::<Vec<_>>()});
+        }
         let ops = decode(&segs[seg], idx);
         json!({"multiset": ops.iter().map(|o| o.show()).collect::<Vec<_>>()})
     }
     fn exec(&self, tier: Tier, _cfg: &str, seg: usize, idx: u64) -> Exec {
         let segs = self.segs(tier);
+        if seg == segs.len() {
+            return shadow_probe_exec(&crate::props::cong::shadow_decode(idx));
+        }
         let ops = decode(&segs[seg], idx);
         let mut out = Exec::default();
         let terms = tracked_terms(&ops);
